@@ -65,4 +65,25 @@ theorem encTy_scalar_length (c : Cfg) (w : Nat) (v : Value) (bs : Bytes)
   | obj _ => simp [encTy] at h
   | null => simp [encTy] at h
 
+/-- **integers round-trip at every width and in both byte orders**: what `put_uint{_le}(v, k)`
+    writes, `get_uint{_le}(k)` reads back — for every k and every v that fits -/
+theorem getUint_putUint (e : Endian) (k v : Nat) (rest : Bytes) (hv : v < 2 ^ (8 * k)) :
+    getUint e (8 * k) (putUint e (8 * k) v ++ rest) = .ok (v, rest) := by
+  have hk : 8 * k / 8 = k := by omega
+  unfold getUint putUint
+  simp only [hk]
+  cases e with
+  | little =>
+    simp only [List.length_append, toLE_length]
+    have : ¬ (k + rest.length < k) := by omega
+    simp only [this, ↓reduceIte]
+    rw [List.take_left' (toLE_length k v), List.drop_left' (toLE_length k v), fromLE_toLE_of_lt k v hv]
+  | big =>
+    simp only [List.length_append, toBE_length]
+    have : ¬ (k + rest.length < k) := by omega
+    simp only [this, ↓reduceIte]
+    rw [List.take_left' (toBE_length k v), List.drop_left' (toBE_length k v)]
+    simp [fromBE, toBE, fromLE_toLE_of_lt k v hv]
+
+
 end Pdlv
